@@ -309,7 +309,9 @@ class MonteCarlo(SingleDriver, Generic[MoveType, CriteriaType]):
             )
             move_storage = move_storage_class.from_dict(move_storage_data)
 
-            mc.moves[name] = move_storage
+            # move names are strings: a JSON reader may hand a name made of digits back as
+            # a number (ase.io.jsonio.read_json turns such keys into integers)
+            mc.moves[str(name)] = move_storage
 
         return mc
 
